@@ -11,9 +11,9 @@ namespace vf {
 
 enum OpCode : uint8_t {
 	OP_UPDATE = 0,
-	OP_REACT,        // a = event type (0/1), b = event value
+	OP_REACT,        // a & 1 = event type, (a >> 1) & 3 = where the event object lives (0, 1 caller's stack; 2 the context object; 3 a state object inside the machine), b = event value
 	OP_QUERY,        // a = event type
-	OP_CHANGE,       // a = destination, pay = payload seed (0 = changeTo)
+	OP_CHANGE,       // a = destination, pay = payload seed (0 = changeTo); b & 1 with transition history: pass previousTransition()'s payload by reference instead
 	OP_IMMEDIATE,    // a = destination, pay
 	OP_PLAN_APPEND,  // a = origin, b = destination, pay
 	OP_PLAN_CLEAR,
@@ -45,6 +45,9 @@ enum ActKind : uint8_t {
 	ACT_PLAN_CLEAR,
 	ACT_PLAN_REMOVE,  // x = mask
 	ACT_REQUEST_REL,  // request the state (own id + 1 + x) mod N -- lets one sticky action ping-pong between states forever
+	ACT_REQUEST_FWD,  // x = destination; the payload is passed BY REFERENCE to library-owned storage: y % 4 = 0 control.request(), 1 pendingTransition() (guards),
+	                  // 2 currentTransition(), 3 previousTransitions(); recorded in the trace as an ordinary request carrying that payload (plain changeTo if there is none)
+	ACT_LOGGER,       // x & 1: attach / detach the logger from inside the callback
 	ACT_COUNT
 };
 static constexpr uint8_t ACT_CHAIN = 0x80;   // next action belongs to the same callback (max 3 per callback)
@@ -61,7 +64,7 @@ struct Op {
 };
 
 struct Case {
-	uint8_t cfg = 0, fill = 0, scenario = 0, flags = 0;  // flags bit0: logger attached at construction
+	uint8_t cfg = 0, fill = 0, scenario = 0, flags = 0;  // flags bit0: logger attached at construction; bit1: external requests may pass previousTransition()'s payload by reference
 	std::vector<Action> ctor;  // actions consumed by the callbacks of instance 0's automatic activation
 	std::vector<Op> ops;
 };
@@ -128,7 +131,7 @@ inline const char* opName(uint8_t code) {
 	return n[code % OP_COUNT];
 }
 inline const char* actName(uint8_t kind) {
-	static const char* n[] = {"-", "request", "cancel", "succeed()", "fail()", "succeed(id)", "fail(id)", "plan.append", "plan.clear", "plan.remove", "request+"};
+	static const char* n[] = {"-", "request", "cancel", "succeed()", "fail()", "succeed(id)", "fail(id)", "plan.append", "plan.clear", "plan.remove", "request+", "request&", "logger"};
 	return n[(kind & ACT_KIND_MASK) % ACT_COUNT];
 }
 
